@@ -758,3 +758,36 @@ func TestExhaustive(t *testing.T) {
 	defer closeEnv()
 	vstat.Enumerate(t, prop, enumerate, runX)
 }
+
+// Hand-picked corner cases (also the worlds on which the history tree at two heads lost a
+// branch before the commonSnapshot fix in /repo, commit 40e6583).
+
+// R -> a(snapshot), R -> b(snapshot), a -> c, b -> d; children first, one change per batch.
+func TestRegConcurrentSnapshotsWithChildren(t *testing.T) {
+	outerT = t
+	defer closeEnv()
+	vstat.One(t, prop, XCase{
+		W:    World{N: 4, Parents: [][]int{{0}, {0}, {1}, {2}}, Rank: []int{0, 1, 2, 3}, Snap: []int{1, 1, 0, 0}, Base: []int{0, 0, 1, 2}},
+		Perm: []int{4, 3, 2, 1}, Cuts: 7, Reopen: 0xfff,
+	}, runX)
+}
+
+// a chain of snapshots where b names the root as its base although its parent a is a snapshot.
+func TestRegEarlierBase(t *testing.T) {
+	outerT = t
+	defer closeEnv()
+	vstat.One(t, prop, XCase{
+		W:    World{N: 4, Parents: [][]int{{0}, {1}, {1}, {2}}, Rank: []int{0, 1, 2, 3}, Snap: []int{1, 1, 1, 1}, Base: []int{0, 0, 1, 2}},
+		Perm: []int{1, 3, 2, 4}, Cuts: 4, Reopen: 3940,
+	}, runX)
+}
+
+// a diamond with a merge, ids chosen against the topological numbering, merge delivered first.
+func TestRegMergeFirst(t *testing.T) {
+	outerT = t
+	defer closeEnv()
+	vstat.One(t, prop, XCase{
+		W:    World{N: 5, Parents: [][]int{{0}, {0}, {1, 2}, {3}, {1}}, Rank: []int{4, 0, 2, 1, 3}, Snap: []int{0, 1, 0, 1, 0}, Base: []int{0, 0, 0, 0, 0}},
+		Perm: []int{3, 4, 5, 2, 1}, Cuts: 5, Reopen: 0x555,
+	}, runX)
+}
